@@ -318,6 +318,7 @@ type Req struct {
 	Header http.Header
 	Body   []byte
 	Rid    string
+	Ctx    context.Context // request context (nil = background); a cancelled one is a client that has hung up
 }
 
 // Do runs one request through the real handler chain. Outside a scheduler run the request is executed as
@@ -369,6 +370,9 @@ func (e *Env) do(r Req) *Result {
 	}
 	if r.Rid != "" {
 		req.Header.Set("X-Verif-Rid", r.Rid)
+	}
+	if r.Ctx != nil {
+		req = req.WithContext(r.Ctx)
 	}
 	var el *elton.Elton
 	if r.Addr != "" {
